@@ -2,7 +2,7 @@
 
 Decides structural clauses only (see DESIGN.md section 4, C15).  The acceptance *law* as a
 probability statement and run splitting are not decided."""
-from tsg.facts import DB, strip, txt, callee, call_args, call_object, walk, const_val
+from tsg.facts import DB, strip, txt, callee, call_args, call_object, walk, const_val, callee_node
 from tsg.flow import UpperBounds, var_of, base_var, element_writes, writes_to_var, cond_edges_dominating, is_reachable
 from tsg.build import AnalysisBroken
 from tsg.taint import carrier
@@ -389,6 +389,27 @@ def run(chk):
                 a = call_args(c)
                 chk.ob("C15-D1.extent", fn.key + fn.sig, "copy extent " + txt(a[1]), txt(strip(a[1])) == "num_dimensions", fn.loc(c))
     chk.floor("C15-D1.extent", nacc, 4, "chain offsets")
+
+    # ------------------------------------------------------------------ D5 dispatch of the C entry point
+    chk.rule("C15-D5.dispatch", "the C entry point instantiates the sampler for the form it was asked for: every SampleDREAM<F> call in tsgDreamSample lies on the true edge of "
+                                "`intToForm(form) == regform` exactly when F is regform")
+    nd5 = 0
+    for f in db.fns("tsgDreamSample", required=False) + db.fns("TasDREAM::tsgDreamSample", required=False):
+        for c in f.calls(into_lambda=False):
+            cal = callee(c) or ""
+            if not cal.endswith("SampleDREAM"):
+                continue
+            targ = (c.get("targs") or (callee_node(c) or {}).get("targs") or "")
+            form = "regform" if "regform" in targ.split(",")[0] else "logform" if "logform" in targ.split(",")[0] else None
+            if form is None:
+                continue
+            nd5 += 1
+            chk.saw(f)
+            edges = [(txt(strip(e)), tr) for e, tr in cond_edges_dominating(f, c)]
+            sel = [(t, tr) for t, tr in edges if "regform" in t and "==" in t]
+            ok = bool(sel) and all((form == "regform") == tr for t, tr in sel)
+            chk.ob("C15-D5.dispatch", f.key, "SampleDREAM<%s> @%d" % (form, c.get("l", 0)), ok, f.loc(c), "selected under %s" % sel, "regform on the true edge, logform on the false edge")
+    chk.floor("C15-D5.dispatch", nd5, 4, "SampleDREAM instantiations in the C entry point")
 
     return ("Static rule discharge over both instantiations of SampleDREAM<form> and the TasmanianDREAM accessors. "
             "D1: forward dataflow of upper-bound facts (v < num_chains) over the clang CFG with edge refinement; sinks are the "
